@@ -37,7 +37,8 @@ VARIABLES
   cTomb,     \* mempool overlay: tombstone count
   ret,       \* [op, k, v, out] the last call and what it returned
   lastW,     \* history: [Key -> Int] last consensus-overlay write since commit:
-             \*   -1 none, -2 unspecified (a Cancel* happened), 0 deleted, v>0 set to v
+             \*   -1 none, 0 deleted, v>0 set to v.  A Cancel* withdraws the pending write (CancelSet*) or one pending
+             \*   delete (CancelDel*) of the key: what the overlay still holds for it is what counts afterwards
   cLastW     \* same for the mempool overlay
 
 vars == <<tree, versions, fPend, fTomb, cPend, cTomb, ret, lastW, cLastW>>
@@ -98,13 +99,13 @@ DelFinality(k) ==
 
 CancelSetFinality(k) ==
   /\ fPend' = [fPend EXCEPT ![k] = None]
-  /\ lastW' = [lastW EXCEPT ![k] = -2]
+  /\ lastW' = [lastW EXCEPT ![k] = IF fTomb[k] > 0 THEN 0 ELSE -1]
   /\ ret' = R("CancelSetFinality", k, None, None)
   /\ UNCHANGED <<tree, versions, fTomb, cPend, cTomb, cLastW>>
 
 CancelDelFinality(k) ==
   /\ fTomb' = [fTomb EXCEPT ![k] = IF @ > 0 THEN @ - 1 ELSE 0]
-  /\ lastW' = [lastW EXCEPT ![k] = -2]
+  /\ lastW' = [lastW EXCEPT ![k] = IF fPend[k] # None THEN fPend[k] ELSE IF fTomb[k] > 1 THEN 0 ELSE -1]
   /\ ret' = R("CancelDelFinality", k, None, None)
   /\ UNCHANGED <<tree, versions, fPend, cPend, cTomb, cLastW>>
 
@@ -132,13 +133,13 @@ Del(k) ==
 
 CancelSet(k) ==
   /\ cPend' = [cPend EXCEPT ![k] = None]
-  /\ cLastW' = [cLastW EXCEPT ![k] = -2]
+  /\ cLastW' = [cLastW EXCEPT ![k] = IF cTomb[k] > 0 THEN 0 ELSE -1]
   /\ ret' = R("CancelSet", k, None, None)
   /\ UNCHANGED <<tree, versions, fPend, fTomb, cTomb, lastW>>
 
 CancelDel(k) ==
   /\ cTomb' = [cTomb EXCEPT ![k] = IF @ > 0 THEN @ - 1 ELSE 0]
-  /\ cLastW' = [cLastW EXCEPT ![k] = -2]
+  /\ cLastW' = [cLastW EXCEPT ![k] = IF cPend[k] # None THEN cPend[k] ELSE IF cTomb[k] > 1 THEN 0 ELSE -1]
   /\ ret' = R("CancelDel", k, None, None)
   /\ UNCHANGED <<tree, versions, fPend, fTomb, cPend, lastW>>
 
